@@ -248,3 +248,147 @@ async def ws_closed(rig: FrontendRig, channel) -> BaseException | None:
     except Exception as ex:  # noqa - mirrors the endpoint
         return ex
     return None
+
+
+# ----------------------------------------------------------------------------------------------------------------------
+# appended for C31 (client-boundary histories): the real FastAPI application of AggregatorServer driven in-process over
+# HTTP (httpx ASGI transport, same event loop as the harness), engine sessions with a gated, closable rpc channel
+
+class ClosableWsChannel(WsChannel):
+    """WsChannel whose engine end refuses new rpc calls once the websocket is closed (a real RpcChannel raises
+    RpcChannelClosedException for calls on a closed channel)."""
+
+    def __init__(self, reported_id: str | None):
+        super().__init__(reported_id)
+        self.closed = False
+        inner = self.script.dispatch_message_async
+
+        async def dispatch_message_async(message_json=None, **kw):
+            if self.closed:
+                raise ConnectionError("opv: rpc call on a closed websocket")
+            return await inner(message_json)
+        self.other.dispatch_message_async = dispatch_message_async
+
+
+class HttpRig:
+    """Real `AggregatorServer(...).fastapi` (all routers, middleware, exception handlers, auth dependencies as shipped)
+    on a scratch SQLite file. Requests are made with `httpx.AsyncClient` over `httpx.ASGITransport` on the harness's
+    own event loop, so that the harness decides when the engine answers. FastAPI runs the synchronous dependencies
+    (`user_name`, `user_roles`, `user_id`, `get_aggregator`) and the synchronous GET routes on anyio worker threads;
+    `anyio.to_thread.run_sync` is wrapped (library side, /repo untouched) to count the calls in flight, which is what
+    lets `quiesce()` wait for 'nothing can run any more' without ever looking at a clock."""
+
+    def __init__(self, fast_sqlite: bool = True):
+        import logging
+        logging.disable(logging.CRITICAL)
+        from openpectus.aggregator.aggregator_server import AggregatorServer
+        from openpectus.aggregator.data import database
+        import openpectus.aggregator.data.models as DMdl
+        self.tmp = tempfile.mkdtemp(prefix="opv-")
+        self.srv = AggregatorServer(db_path=os.path.join(self.tmp, "agg.sqlite3"), webpush_keys_path=self.tmp)
+        if fast_sqlite:
+            from sqlalchemy import event
+
+            @event.listens_for(database._engine, "connect")
+            def _pragmas(dbapi_con, _rec):  # pragma: no cover - trivial
+                cur = dbapi_con.cursor()
+                cur.execute("PRAGMA synchronous=OFF")
+                cur.execute("PRAGMA journal_mode=MEMORY")
+                cur.close()
+        DMdl.DBModel.metadata.create_all(database._engine)  # type: ignore
+        self.database = database
+        self.dispatcher = self.srv.dispatcher
+        self.agg = self.srv.aggregator
+        self.app = self.srv.fastapi
+        self.client = None
+        self.threads_in_flight = 0
+        self.thread_calls = 0
+        self._thread_done: asyncio.Event | None = None
+        self._orig_run_sync = None
+
+    async def start(self):
+        import anyio.to_thread as tt
+        import httpx
+        self._thread_done = asyncio.Event()
+        orig = self._orig_run_sync = tt.run_sync
+        rig = self
+
+        async def run_sync(*a, **kw):
+            rig.threads_in_flight += 1
+            rig.thread_calls += 1
+            try:
+                return await orig(*a, **kw)
+            finally:
+                rig.threads_in_flight -= 1
+                rig._thread_done.set()
+        tt.run_sync = run_sync  # type: ignore
+        self.client = httpx.AsyncClient(transport=httpx.ASGITransport(app=self.app, raise_app_exceptions=False),
+                                        base_url="http://opv")
+        return self
+
+    async def quiesce(self, limit: int = 100000) -> bool:
+        """Returns once no task other than the caller can make a step: no worker-thread call in flight and the loop's
+        ready queue empty on two consecutive visits (fallback if the loop has no `_ready`: 12 calm visits)."""
+        loop = asyncio.get_running_loop()
+        ready = getattr(loop, "_ready", None)
+        need = 2 if ready is not None else 12
+        calm = 0
+        for _ in range(limit):
+            if self.threads_in_flight > 0:
+                await self._thread_done.wait()
+                self._thread_done.clear()
+                calm = 0
+                continue
+            await asyncio.sleep(0)
+            if self.threads_in_flight == 0 and (ready is None or len(ready) == 0):
+                calm += 1
+                if calm >= need:
+                    return True
+            else:
+                calm = 0
+        return False
+
+    async def register(self, computer: str, uod: str) -> str:
+        """Engine registration through the real REST route of the dispatcher."""
+        from openpectus.protocol.dispatch_interface import AGGREGATOR_REST_PATH
+        from openpectus.protocol.serialization import serialize
+        r = await self.client.post(AGGREGATOR_REST_PATH, json=serialize(FrontendRig.register_msg(computer, uod)))
+        if r.status_code != 200 or not r.json().get("success"):
+            raise RuntimeError(f"rig: engine registration failed: {r.status_code} {r.text[:200]}")
+        return r.json()["engine_id"]
+
+    async def connect(self, engine_id: str) -> ClosableWsChannel:
+        ch = ClosableWsChannel(engine_id)
+        await self.dispatcher._on_delayed_client_connect(ch)  # type: ignore
+        if self.dispatcher._engine_id_channel_map.get(engine_id) is not ch:
+            raise RuntimeError("rig: the rpc channel was not accepted")
+        return ch
+
+    async def drop(self, channel: ClosableWsChannel) -> int:
+        """The engine websocket closes: the dispatcher's disconnect handlers run first (nothing else is runnable at a
+        quiescent point, so this is atomic for the savers), then every rpc still pending on the channel fails."""
+        channel.closed = True
+        ex = await ws_closed(self, channel)  # type: ignore
+        if ex is not None:
+            raise RuntimeError(f"rig: disconnect handler raised {ex!r}")
+        n = 0
+        for call in channel.script.pending():
+            call["future"].set_exception(ConnectionError("opv: websocket closed"))
+            n += 1
+        return n
+
+    async def aclose(self):
+        import anyio.to_thread as tt
+        try:
+            if self.client is not None:
+                await self.client.aclose()
+        finally:
+            if self._orig_run_sync is not None:
+                tt.run_sync = self._orig_run_sync  # type: ignore
+
+    def close(self):
+        try:
+            if self.database._engine is not None:
+                self.database._engine.dispose()
+        finally:
+            shutil.rmtree(self.tmp, ignore_errors=True)
